@@ -103,7 +103,7 @@ def run(ctx: Ctx) -> Result:
         v = kv[t["cid"]]
         if v["v"][0] == "ok":
             k_ok += 1
-        else:
+        elif v["v"][0] == "FAIL":
             add_violation(ctx, res, v["v"][1], {"kind": "keys", "property": ctx.prop, "spec": by[t["cid"]], "trace": t, "verdict": v},
                           f"keys case {t['cid']} (eager={t['eager']}): {v['v'][2][:300]}")
     # (2) frequencies and independence
@@ -124,7 +124,7 @@ def run(ctx: Ctx) -> Result:
             conds[cell["cond"]] = conds.get(cell["cond"], 0) + 1
         if v["v"][0] == "ok":
             s_ok += 1
-        else:
+        elif v["v"][0] == "FAIL":
             add_violation(ctx, res, v["v"][1], {"kind": "stats", "property": ctx.prop, "case": c, "verdict": v},
                           f"stats case {c['cid']} (N={c['N']}, seed={c['seed']}): {v['v'][2][:300]}")
     # (3) reproducibility, on recorded frames
